@@ -729,6 +729,13 @@ def o_history(case):
                 labels.append("op=revert")
         elif name == "validate":
             labels.append("op=validate")
+        elif name == "copy":
+            # work continues on a (shallow) copy of the object, as code that wants to try a change without touching the
+            # caller's transaction does; whatever the original had worked out about itself is not the copy's business
+            import copy as _copy
+            tx = _copy.copy(tx)
+            stack = []
+            labels.append("op=copy")
         else:
             raise HarnessError("bad op %r" % (op,))
         if not _same_state(tx, model):
@@ -780,7 +787,7 @@ def nt_history(case, labels):
 
 def s_history():
     tx, hts = s_signed_tx(max_ins=3)
-    op = weighted((5, st.tuples(st.just("mut"), s_mutation()).map(list)), (2, st.just(["revert"])), (1, st.just(["validate"])))
+    op = weighted((5, st.tuples(st.just("mut"), s_mutation()).map(list)), (2, st.just(["revert"])), (1, st.just(["validate"])), (1, st.just(["copy"])))
     return st.fixed_dictionaries({"tx": tx, "hts": hts, "ops": st.lists(op, min_size=2, max_size=10)})
 
 
